@@ -37,6 +37,30 @@ Theorem C02_node_file_in_every_state : forall fs nat_reg fuel calls d r st' m,
 Proof. exact resolve_is_node_from_clean_dir. Qed.
 Print Assumptions C02_node_file_in_every_state.
 
+(* the same through r.nodeModules for bare names that are not native/core modules (key: start + NUL + name; stated for
+   directories and names without a NUL byte, where the key splits in one way only) *)
+Theorem C02_bare_history_independent : forall fs nat_reg fuel calls d r st' x,
+  is_file_or_dir_path r = false ->
+  snd (load_native nat_reg (run_tops fs nat_reg fuel init_state calls) r) = RNone ->
+  ~ In 0 (render d) -> ~ In 0 r ->
+  require_ fs nat_reg fuel (run_tops fs nat_reg fuel init_state calls) d r = (st', x) ->
+  match x with
+  | ROk m => exists f, file_owner st' m = Some f /\ select fs (cands_node fs (parse (render d)) r) = SFile f
+  | RNone => select fs (cands_node fs (parse (render d)) r) = SNotFound
+  | _ => True
+  end.
+Proof. exact bare_history_independent. Qed.
+Print Assumptions C02_bare_history_independent.
+
+Theorem C02_bare_node_file_in_every_state : forall fs nat_reg fuel calls d r st' m,
+  is_file_or_dir_path r = false ->
+  snd (load_native nat_reg (run_tops fs nat_reg fuel init_state calls) r) = RNone ->
+  ~ In 0 (render d) -> ~ In 0 r -> rooted d = true -> no_double_nm (rev (segs d)) -> clean d ->
+  require_ fs nat_reg fuel (run_tops fs nat_reg fuel init_state calls) d r = (st', ROk m) ->
+  exists f, file_owner st' m = Some f /\ spec_resolve fs d r = SFile f.
+Proof. exact bare_is_node_from_clean_dir. Qed.
+Print Assumptions C02_bare_node_file_in_every_state.
+
 (* the path representation is canonical: the rendered string identifies the path *)
 Theorem C02_paths_canonical : (forall s, clean (parse s)) /\ (forall b rel, clean b -> clean (pjoin (Some b) rel)) /\
   (forall p, clean p -> clean (pdir p)) /\ (forall p, clean p -> parse (render p) = p).
